@@ -253,7 +253,7 @@ PROPS["C16"] = {
         H("c16::de_long", functions=C16_FUNCS, bounds="all byte strings of length <= 10 under schema long"),
         H("c16::de_scalars", functions=C16_FUNCS, bounds="all byte strings of length <= 10 under boolean / int / double"),
     ],
-    "outside": "strings/bytes longer than 4 bytes, options of other types, sequences and maps with block settings, structs beyond the two listed shapes (cached fields of variable length, defaults for skipped fields, nested records, struct deserialization: not decided within the cap), enums, the schema-less to_value/from_value route. Agreement with the generic path is derived: both are decided equal to the same reference codec (serde side here, generic side in enc::* / dec::*).",
+    "outside": "strings/bytes longer than 4 bytes, options of other types, Option on the deserializer side (c16::de_option_null_first/_last exist, unregistered: > 5 min each with a 10-byte tail), sequences and maps with block settings, structs beyond the two listed shapes (cached fields of variable length, defaults for skipped fields, nested records, struct deserialization: not decided within the cap), enums, the schema-less to_value/from_value route. Agreement with the generic path is derived: both are decided equal to the same reference codec (serde side here, generic side in enc::* / dec::*).",
     "assumptions": ["the byte-level agreement of the two routes is derived from their equality with one reference codec, not compared in one query"],
 }
 
